@@ -124,6 +124,10 @@ def case_blocks(draw, tier):
                 seed=draw(st.integers(0, 10**6)))
 
 
+FIXED_ARITY = {2: lambda f: (lambda u1, u2, v1, v2, w: f(u1, u2, v1, v2, w)),
+               3: lambda f: (lambda u1, u2, u3, v1, v2, v3, w: f(u1, u2, u3, v1, v2, v3, w))}
+
+
 def body_blocks(c, ctx):
     from skfem import BilinearForm, CellBasis
     from ..cases import build_element, build_mesh
@@ -175,6 +179,21 @@ def body_blocks(c, ctx):
                 ctx.fail('block_assembly', f'block (test {a}, trial {b}) of {lab} differs from the separately assembled component '
                          f'form by {np.abs(got - want).max() if got.shape == want.shape else "shape"}', **sig)
                 return
+            # Form.block(trial component, test component): the coupled form restricted to one pair of components, assembled on
+            # the component bases
+            if n in FIXED_ARITY:
+                try:
+                    gotb = BilinearForm(FIXED_ARITY[n](form)).block(b, a).assemble(cbases[b], cbases[a]).toarray()
+                except (ValueError, IndexError, TypeError, AttributeError) as e:
+                    # the zero placeholders have the shape of the given component: integrands that index a component of another
+                    # tensor rank cannot be evaluated on them (limitation of the mechanism, loud)
+                    ctx.cls('form_block_unsupported:' + type(e).__name__)
+                    continue
+                ctx.cls('form_block')
+                if gotb.shape != want.shape or not np.allclose(gotb, want, rtol=0, atol=1e-11 * (1 + np.abs(want).max())):
+                    ctx.fail('form_block', f'form.block({b}, {a}) of {lab} on the component bases differs from the component form by '
+                             f'{np.abs(gotb - want).max() if gotb.shape == want.shape else "shape"}', **sig)
+                    return
 
 
 # ------------------------------------------------------------------------------ vector == composite of copies
